@@ -139,3 +139,73 @@ Proof.
     transitivity (a0 * (fx * nx + fy * ny + fz * nz) + (fx * lx + fy * ly + fz * lz)); [ring|].
     rewrite Hn, IH. ring.
 Qed.
+
+(* --- canonical forms modulo 1 ------------------------------------------------------------------ *)
+Lemma qsame_eq a b : qsame a b = true -> a = b.
+Proof.
+  destruct a as [n d], b as [m e]. unfold qsame. cbn [Qnum Qden]. rewrite andb_true_iff.
+  intros [H1 H2]. apply Z.eqb_eq in H1. apply Pos.eqb_eq in H2. subst. reflexivity.
+Qed.
+
+Lemma qsame_refl a : qsame a a = true.
+Proof. destruct a as [n d]. unfold qsame. cbn [Qnum Qden]. rewrite Z.eqb_refl, Pos.eqb_refl. reflexivity. Qed.
+
+Lemma q3same_eq u v : q3same u v = true -> u = v.
+Proof.
+  destruct u as [u1 u2 u3], v as [w1 w2 w3]. unfold q3same. cbn [qx qy qz]. rewrite !andb_true_iff. intros [[A B] C].
+  apply qsame_eq in A, B, C. subst. reflexivity.
+Qed.
+
+Lemma qcanon_cong a b : qcanon a = qcanon b -> IsInt (a - b).
+Proof.
+  unfold qcanon. intros H. exists (Qfloor a - Qfloor b)%Z.
+  assert (E : a - inject_Z (Qfloor a) == b - inject_Z (Qfloor b)).
+  { rewrite <- (Qred_correct (a - inject_Z (Qfloor a))), <- (Qred_correct (b - inject_Z (Qfloor b))), H. reflexivity. }
+  unfold Z.sub. rewrite inject_Z_plus, inject_Z_opp.
+  transitivity ((a - inject_Z (Qfloor a)) - (b - inject_Z (Qfloor b)) + inject_Z (Qfloor a) - inject_Z (Qfloor b)); [ring|].
+  rewrite E. ring.
+Qed.
+
+Lemma Qfloor_unique x n : inject_Z n <= x -> x < inject_Z (n + 1) -> Qfloor x = n.
+Proof.
+  intros H1 H2.
+  assert (A : (n <= Qfloor x)%Z).
+  { rewrite <- (Qfloor_Z n). apply Qfloor_resp_le. exact H1. }
+  assert (B : (Qfloor x < n + 1)%Z).
+  { rewrite Zlt_Qlt. eapply Qle_lt_trans; [apply Qfloor_le | exact H2]. }
+  lia.
+Qed.
+
+Lemma Qfloor_shift a b z : a - b == inject_Z z -> Qfloor a = (Qfloor b + z)%Z.
+Proof.
+  intros H. apply Qfloor_unique.
+  - rewrite inject_Z_plus. pose proof (Qfloor_le b) as L.
+    assert (E : a == b + inject_Z z) by (rewrite <- H; ring). rewrite E.
+    apply Qplus_le_l. exact L.
+  - replace (Qfloor b + z + 1)%Z with ((Qfloor b + 1) + z)%Z by ring. rewrite inject_Z_plus.
+    pose proof (Qlt_floor b) as L.
+    assert (E : a == b + inject_Z z) by (rewrite <- H; ring). rewrite E.
+    apply Qplus_lt_l. exact L.
+Qed.
+
+Lemma cong_qcanon a b : IsInt (a - b) -> qcanon a = qcanon b.
+Proof.
+  intros [z H]. unfold qcanon. apply Qred_complete.
+  rewrite (Qfloor_shift a b z H). rewrite inject_Z_plus.
+  transitivity ((a - b) + b - inject_Z (Qfloor b) - inject_Z z); [ring|]. rewrite H. ring.
+Qed.
+
+Lemma q3canon_cong u v : q3canon u = q3canon v -> IsInt3 (q3sub u v).
+Proof.
+  destruct u as [u1 u2 u3], v as [w1 w2 w3]. unfold q3canon, IsInt3, q3sub. cbn [qx qy qz]. intros H. injection H as A B C.
+  auto using qcanon_cong.
+Qed.
+
+Lemma cong_q3canon u v : IsInt3 (q3sub u v) -> q3canon u = q3canon v.
+Proof.
+  destruct u as [u1 u2 u3], v as [w1 w2 w3]. unfold q3canon, IsInt3, q3sub. cbn [qx qy qz]. intros (A & B & C).
+  rewrite (cong_qcanon _ _ A), (cong_qcanon _ _ B), (cong_qcanon _ _ C). reflexivity.
+Qed.
+
+Lemma q3same_refl u : q3same u u = true.
+Proof. destruct u as [u1 u2 u3]. unfold q3same. cbn [qx qy qz]. rewrite !qsame_refl. reflexivity. Qed.
